@@ -135,7 +135,11 @@ func (BridgeEngine) GenConfig(rng *rand.Rand, prop string, tier string) RunConfi
 	if rng.IntN(3) == 0 {
 		nChains = 2
 	}
-	names := []string{"eth", "bsc", "polygon", "avalanche", "arbitrum", "optimism", "layer2"}
+	names := []string{"eth", "bsc", "polygon", "avalanche", "arbitrum", "optimism", "layer2", "tron"}
+	if prop == "C12" && rng.IntN(2) == 0 {
+		nChains = 2
+		names = []string{"tron"} // TRON has its own checkpoint encoder and signed-message prefix
+	}
 	rng.Shuffle(len(names), func(i, j int) { names[i], names[j] = names[j], names[i] })
 	// eth always first: it is the chain that carries FX itself
 	chains := []string{"eth"}
@@ -577,8 +581,8 @@ func (c *ChainSt) buildConfirm(w *World, t *Tx) (*Built, error) {
 		signKey = w.KeyByName(t.A.Str("signkey"))
 	}
 	ext := c.Ext
-	if t.A.Str("prefix") == "tron" {
-		ext = &ExtChain{Tron: true}
+	if t.A.Has("prefix") { // fault: the signed-message prefix of the other chain family
+		ext = &ExtChain{Tron: !c.Ext.Tron}
 	}
 	sig := ext.SignDigest(digest, signKey)
 	switch t.A.Str("sigfault") {
